@@ -91,6 +91,9 @@ func c17Cases() []retCase {
 		{"xml/compact", sch("xml", "", "/root/rec"), "<root><hdr>h</hdr>", "</root>", func(int) string { return "<rec><v>1</v><w>x</w></rec>" }, 1},
 		{"xml/whitespace-between-records", sch("xml", "", "/root/rec"), "<root>\n  <hdr>h</hdr>\n", "</root>", func(int) string { return "  <rec><v>1</v><w>x</w></rec>\n" }, 1},
 		{"xml/filtered", sch("xml", "", "/root/rec[v='1']"), "<root>", "</root>", alt("<rec><v>1</v></rec>", "<rec><v>2</v></rec>"), 1},
+		{"xml/filtered-by-attribute-padded-xpath", sch("xml", "", "  /root/rec[@k='1'] \n"), "<root>", "</root>", alt(`<rec k="1"><v>1</v></rec>`, `<rec k="2"><v>2</v></rec>`), 1},
+		{"xml/filtered-quote-in-literal", sch("xml", "", `/root/rec[v="o'b"]`), "<root>", "</root>", alt("<rec><v>o'b</v></rec>", "<rec><v>2</v></rec>"), 1},
+		{"json/filtered-padded-xpath", sch("json", "", " /recs/*[v='1'] "), `{"recs": [`, `{"v": "last"}]}`, alt(`{"v": "1"},`, `{"v": "2"}, `), 1},
 		{"xml/nested-groups", sch("xml", "", "/root/g/rec"), "<root><g>", "</g></root>", func(int) string { return "<rec><v>1</v></rec>" }, 1},
 		{"json/array", sch("json", "", "/recs/*"), `{"hdr": "h", "recs": [`, `{"v": "last"}]}`, func(int) string { return `{"v": "1", "w": [1, 2]},` + "\n" }, 1},
 		{"json/filtered", sch("json", "", "/recs/*[v='1']"), `{"recs": [`, `{"v": "last"}]}`, alt(`{"v": "1"},`, `{"v": "2"}, `), 1},
